@@ -89,8 +89,11 @@ class Renderer:
                 parts.append("%s: %d" % (ty, i + 1))
             return "_Generic(%s, %s)" % (t(f["c"]), ", ".join(parts))
         if fm == "minv":
-            args = ", ".join(str(i + 1) for i in range(f["nargs"]))
-            return "MF(%s%s" % (args, ")" if f["closed"] else "")
+            if f["m"] == "MF":
+                args = ", ".join(str(i + 1) for i in range(f["nargs"]))
+            else:
+                args = ", ".join(["1", "+2", "+3"][:f["nargs"]])
+            return "%s(%s%s" % (f["m"], args, ")" if f["closed"] else "")
         raise KeyError(fm)
 
     EXPR_FORMS = {"use", "bin", "un", "asg", "call", "mem", "idx", "cast", "cond", "sizeoft", "lit", "vaarg", "generic", "minv", "synx", "builtin"}
@@ -217,7 +220,8 @@ class Renderer:
                     "nullptr_assign": "typeof(nullptr) zn = 1;", "const_fold_overflow_s": "static int zv = (int)1e30;",
                     "const_fold_overflow_u": "static unsigned zv = (unsigned)1e30;",
                     "static_init_addr_local": "static int *zv = &li;", "static_init_addr_compound": "static int *zv = &(int){ 1 };",
-                    "static_init_addr_index": "static int *zv = &ga[gi];", "static_init_addr_ok": "static int *zv = &ga[1];"}[f["kind"]]
+                    "static_init_addr_index": "static int *zv = &ga[gi];", "static_init_addr_ok": "static int *zv = &ga[1];",
+                    "eof_comment_decl": "extern int zc; /* never closed"}[f["kind"]]
         if fm == "dir":
             return self.directive(f)
         raise KeyError(fm)
@@ -262,18 +266,18 @@ class Renderer:
         if pos != "none":
             inner, drops = frag, []
             while inner["form"] == "drop":      # the fragment with the last occurrence of a token removed
-                drops.append(inner["tok"])
+                drops.append((inner["tok"], inner["with"]))
                 inner = inner["of"]
             fm = inner["form"]
             isexpr = fm in self.EXPR_FORMS
             text = self.expr(inner) if isexpr else self.item(inner)
             if text is None:   # misc vla_static: a static object of variably modified type
                 text = "int zv[gi];" if pos == "file" else "static int zv[li];"
-            for tok in reversed(drops):
+            for tok, rep in reversed(drops):
                 i = text.rfind(tok)
                 if i < 0:
                     raise ValueError("token %r to drop does not occur in %r" % (tok, text))
-                text = text[:i] + " " + text[i + len(tok):]
+                text = text[:i] + (rep or " ") + text[i + len(tok):]
             if isexpr:
                 e = text
                 if pos == "file":
